@@ -6,11 +6,19 @@ Theorem C14_occurs_sound : forall mn1 mx1 mn2 mx2,
 Proof. exact occurs_sound. Qed.
 Print Assumptions C14_occurs_sound.
 
+(* the two wildcards may belong to schema documents with different target namespaces (restriction across an xs:import) *)
 Theorem C14_wildcard_sound : forall a b,
-  wtns a = wtns b -> is_restriction a b = true ->
+  is_restriction a b = true ->
   forall n, n <> xsi -> allowed a n = true -> allowed b n = true.
-Proof. exact restriction_sound. Qed.
+Proof. exact restriction_sound_tns. Qed.
 Print Assumptions C14_wildcard_sound.
+
+(* the rule before repo fix beb3bf4 accepted ##other against ##other of another target namespace *)
+Theorem C14_wildcard_old_refuted :
+  exists a b n, is_restriction_old a b = true /\ is_restriction a b = false /\ n <> xsi /\
+                allowed a n = true /\ allowed b n = false.
+Proof. exact restriction_old_refuted. Qed.
+Print Assumptions C14_wildcard_old_refuted.
 
 Theorem C14_process_contents_sound : forall derived base,
   pc_restriction derived base = true -> pc_checks_value base <= pc_checks_value derived.
